@@ -295,7 +295,7 @@ def run_check(ctx, pid):
         runs = [("corpus", ["-mode", "corpus"]),
                 ("pb2", ["-mode", "pb", "-pre", 2, "-tmoevery", 50]),
                 ("pb3", ["-mode", "pb", "-pre", 3, "-progs", "0,2,3,4", "-tmoevery", 50]),
-                ("exh", ["-mode", "exhaustive", "-progs", "2,3,4", "-max", 60000, "-tmoevery", 200]),
+                ("exh", ["-mode", "exhaustive", "-progs", "0,2,3,4", "-max", 60000, "-tmoevery", 200]),
                 ("random", ["-mode", "random", "-n", 600, "-tmoevery", 20]),
                 ("randprog", ["-mode", "randprog", "-n", 3000, "-tmoevery", 20])]
     terms, jsons, err = run_harness(ctx, binp, runs)
@@ -326,6 +326,15 @@ def run_check(ctx, pid):
     ctx.log("judged in Coq: %d cases in %.1fs, %d bad" % (len(terms), time.time() - t0, len(bad)))
     fails = [(i, c) for i, c in bad if c == 1]
     diffs = [(i, c) for i, c in bad if c == 2]
+    if ctx.cov.get("tie_T", {}).get("which") == "pinned":
+        # the source is the pinned algorithm: check that the recorded traces are those of the
+        # [_orig] machine, about which the refutation theorems speak
+        obad, _, oerr = ctx.judge_cases(HEADER, "wg_case", judge_name + "_orig", terms,
+                                        shard=max(40, -(-len(terms) // 16)), tag="orig", timeout=1500)
+        if not oerr:
+            od = sum(1 for _, c in obad if c == 2)
+            ctx.cov["pinned_model_differences"] = od
+            ctx.log("the %d traces compared with the model of the pinned code (wgo_exec): %d differ" % (len(terms), od))
     if broken and not fails:
         # search: widened enumeration on the implementation
         ctx.log("an obligation broke without a failing input: widening the schedule search")
@@ -402,7 +411,7 @@ def run_check(ctx, pid):
         "threads_histogram": hist(len(j["progs"]) - 1 for j in jsons),
         "timeout_probes": hist({0: "nil", 1: "ErrWGTimeout", 2: "hung", 3: "not probed"}[j["tmo"]] for j in jsons),
         "exhaustive": (not quick),
-        "exhaustive_note": "thorough: all schedules of catalogue programs 2,3,4 and all <=2-preemption schedules of the whole catalogue; quick: all <=1-preemption schedules of the catalogue, <=2 for four programs, plus random schedules and random programs",
+        "exhaustive_note": "thorough: all schedules of catalogue programs 0,2,3,4 and all <=2-preemption schedules of the whole catalogue; quick: all <=1-preemption schedules of the catalogue, <=2 for four programs, plus random schedules and random programs",
         "samples": [view(j) for j in jsons[:1] + jsons[len(jsons) // 2:len(jsons) // 2 + 1]],
         "violating_cases": len(fails), "model_differences": len(diffs),
     })
